@@ -20,6 +20,13 @@ CHECKS = {
         design_ref="3/C20",
         note="Trusts TLC and the stub process objects (poll() scripted, no real signals); real process registration through _run_command_pipeline is not exercised in this tier.",
     ),
+    "C15": dict(
+        category="model_checking",
+        technique="TLA+ spec Alias (step-wise expansion, liveness + variant) checked by TLC; alias tables enumerated/sampled over a finite body universe, resolved by the real Aliases.get and SubprocSpec.build, recorded queries validated against AliasTrace by TLC; definition-order groups compared",
+        text="TLC proves termination (leads-to under weak fairness, depth variant), each-alias-once, argument-suffix preservation and agreement of the step-wise expansion with the reference for every alias table of the bounded universe, cycles included; every table of the reduced universe (thorough) and seeded samples of the full one are built on the real Aliases object in several definition orders and every resolution result must equal the spec's reference expansion.",
+        design_ref="3/C15",
+        note="Trusts TLC and the finite universe (3 names, bodies of <= 2 tokens plus decorator prefixes, callable and return-command bodies). ExecAlias bodies and the $__ALIAS_STACK guard are covered separately when built.",
+    ),
 }
 
 ALL = [f"C{i:02d}" for i in range(1, 21)]
